@@ -109,7 +109,21 @@ impl Epoch {
     /// Invalid number of hours, minutes, and seconds will overflow into their higher unit.
     /// Warning: this will set the subdivisions of seconds to zero.
     pub fn with_hms_strict(&self, hours: u64, minutes: u64, seconds: u64) -> Self {
-        let (sign, days, _, _, _, _, _, _) = self.duration.decompose();
+        let (sign, days, h, m, s, ms, us, ns) = self.duration.decompose();
+        if sign < 0 {
+            // Before the reference epoch the duration is negative: the day that contains this epoch starts at the
+            // whole number of days at or below it, not at the whole days of its magnitude.
+            let whole_days = -Duration::compose(0, days, 0, 0, 0, 0, 0, 0);
+            let day_start = if (h, m, s, ms, us, ns) == (0, 0, 0, 0, 0, 0) {
+                whole_days
+            } else {
+                whole_days - Duration::compose(0, 1, 0, 0, 0, 0, 0, 0)
+            };
+            return Self::from_duration(
+                day_start + Duration::compose(0, 0, hours, minutes, seconds, 0, 0, 0),
+                self.time_scale,
+            );
+        }
         Self::from_duration(
             Duration::compose(sign, days, hours, minutes, seconds, 0, 0, 0),
             self.time_scale,
